@@ -3,6 +3,9 @@
 # revert, and record the outcome in selftest/seeded_results.tsv (id, property, rc, seconds, first message).
 TIER="${1:-quick}"; shift
 cd /verif
+# evidence files are rewritten by every run: keep the ones from the unchanged tree
+EVBAK=$(mktemp -d); cp -a evidence/. $EVBAK/ 2>/dev/null
+trap 'cp -a $EVBAK/. /verif/evidence/ 2>/dev/null; rm -rf $EVBAK' EXIT
 IDS="${@:-$(ls seeded | grep -v ^_)}"
 for id in $IDS; do
   d=seeded/$id; prop=$(python3 -c "import json;print(json.load(open('$d/meta.json'))['property'])")
